@@ -401,7 +401,12 @@ def calls(cfg):
     for ns in cfg['ns_api']:
         for s in S:
             for d in durings:
-                A.append(mk('Call', sid=s, ns=ns, ev='q', during=d))
+                A.append(mk('Call', sid=s, ns=ns, ev='q', during=d,
+                            early=False))
+            # ... and the same arriving before call() has begun to wait
+            for d in durings[1:4] + durings[6:8]:
+                A.append(mk('Call', sid=s, ns=ns, ev='q', during=d,
+                            early=True))
             A.append(mk('Emit', ns=ns, toKind='one', to=[s], skipKind='none',
                         skip=[], ev='msg', data='v1', cb='c1'))
     for t in T:
